@@ -969,25 +969,66 @@ func c08Mcrew(c *Ctx) {
 				ok, why = false, "the send is made from a goroutine: messages of one action can be reported out of order (and a loop variable shared by the goroutines can be reported several times)"
 			}
 		}
-		// inside a loop over Events.Emitted, sending that loop's element
+		// inside a loop over Events.Emitted, sending that loop's element; a send that sits in a helper which is
+		// handed the message is judged at every call of that helper
 		if ok {
-			inLoop := false
-			for _, l := range enclosingLoops(flow.Loops(f), in.Block()) {
-				if op := loopOperand(l); op != nil {
-					if _, is := ssau.LoadOfField(op, prog.Abs("core"), "Events", "Emitted"); is || strings.Contains(op.String(), "Emitted") {
-						inLoop = true
-					}
-				}
-			}
-			if !inLoop {
-				ok, why = false, "the send is not inside the loop over a stride's emitted messages"
-			}
+			ok, why = c08InEmittedLoop(in, st.val, fns, goBodies, 0)
 		}
 		c.R.Check(ok, "C08-R7", fmt.Sprintf("%s: hand-over to Service.Emitted #%d", fname(f), n), c.pos(in), "sent by Process itself, in emission order", why)
 	}
 	if n == 0 {
 		c.R.Break("C08-R7: mcrew never sends on Service.Emitted")
 	}
+}
+
+// c08InEmittedLoop: the instruction (a send of val, or a call that leads to one) runs inside a loop over a stride's
+// Emitted — in its own function, or, when it sits in an unexported helper that sends the message it is handed, at
+// every call of that helper (none of them a go statement or inside a goroutine started by Process).
+func c08InEmittedLoop(in ssa.Instruction, val ssa.Value, fns []*ssa.Function, goBodies map[*ssa.Function]bool, depth int) (bool, string) {
+	const notIn = "the send is not inside the loop over a stride's emitted messages"
+	f := in.Parent()
+	for _, l := range enclosingLoops(flow.Loops(f), in.Block()) {
+		if op := loopOperand(l); op != nil {
+			if _, is := ssau.LoadOfField(op, prog.Abs("core"), "Events", "Emitted"); is || strings.Contains(op.String(), "Emitted") {
+				return true, ""
+			}
+		}
+	}
+	if flow.InCycle(in.Block()) {
+		return false, notIn // in some other loop: not once per emitted message
+	}
+	par, isPar := val.(*ssa.Parameter)
+	if !isPar || par.Parent() != f || f.Parent() != nil || depth > 2 || (f.Object() != nil && f.Object().Exported()) {
+		return false, notIn
+	}
+	pi := -1
+	for i, fp := range f.Params {
+		if fp == par {
+			pi = i
+		}
+	}
+	sites := callSitesOf(f, fns)
+	if len(sites) == 0 || pi < 0 {
+		return false, notIn
+	}
+	for _, site := range sites {
+		if _, isCall := site.(*ssa.Call); !isCall {
+			return false, "the send is made from a goroutine (or deferred): messages of one action can be reported out of order"
+		}
+		for g := site.Parent(); g != nil; g = g.Parent() {
+			if goBodies[g] {
+				return false, "the send is made from a goroutine: messages of one action can be reported out of order (and a loop variable shared by the goroutines can be reported several times)"
+			}
+		}
+		args := site.Common().Args
+		if pi >= len(args) {
+			return false, notIn
+		}
+		if ok, why := c08InEmittedLoop(site, args[pi], fns, goBodies, depth+1); !ok {
+			return false, why
+		}
+	}
+	return true, ""
 }
 
 // sendSite: a place where a message is sent on Service.Emitted — the send itself, or the call of a helper that
